@@ -126,6 +126,29 @@ Theorem c13_shifts_odd_order :
 Proof. exact pgr_shifts_odd_order. Qed.
 Print Assumptions c13_shifts_odd_order.
 
+(** constants reproduce (uniform-cubic path): whenever the evaluation succeeds a theta-spline whose coefficients
+    are all c has the value c - the hypothesis [V m k j = c] of c13_pargrad_const_zero for a constant potential *)
+Theorem c13_ev_const_cu :
+  forall (F : Type) (K : sp_ops F),
+  sp_laws K ->
+  forall (knots : list F) (deg : nat) (coeffs : list F) (c x v : F),
+  (forall i : nat, (i < length coeffs)%nat -> nth i coeffs (sp0 K) = c) ->
+  adv_ev F K true knots deg coeffs x = SpOk v -> v = c.
+Proof. exact adv_ev_const_cu. Qed.
+Print Assumptions c13_ev_const_cu.
+
+(** the same on the general path (sorted knots, the span found is a non-empty interval) *)
+Theorem c13_ev_const_nu :
+  forall (F : Type) (K : sp_ops F),
+  sp_laws K ->
+  forall (knots : list F) (deg : nat) (coeffs : list F) (c x v : F),
+  sp_sorted F K knots ->
+  (forall s : nat, sp_nu_find_span F K knots deg x = SpOk s -> sp_span_ok F K knots s) ->
+  (forall i : nat, (i < length coeffs)%nat -> nth i coeffs (sp0 K) = c) ->
+  adv_ev F K false knots deg coeffs x = SpOk v -> v = c.
+Proof. exact adv_ev_const_nu. Qed.
+Print Assumptions c13_ev_const_nu.
+
 Theorem c13_qc_instance : sp_laws spq_ops.
 Proof. exact spq_laws. Qed.
 Print Assumptions c13_qc_instance.
